@@ -308,8 +308,6 @@ def c03_class(sc):
         return "C03-nonmonotone-output-times"
     if sc["cache"]:
         pers_conns = [c for c in sc["connects"] if is_persistent(sims[c["src"]]["type"], c["sattr"])]
-        if any(c["ts"] >= 1 for c in pers_conns):
-            return "C03-cache-prune-shift"
         if any(c["init"] for c in pers_conns):
             return "C03-cache-initial-data"
     if grouped and any(c["weak"] for c in sc["connects"]):
